@@ -583,6 +583,19 @@ func siblingBlockPrograms() [][]string {
 		[]string{"local a = \"it's\"", "local b = 'say \"' .. a", "print(\"it's\", a, b)"},
 		[]string{"local a, b = 1, 2", "local c = a // b + (a << b) + (a ~ b)", "print(c)"},
 		[]string{"local a = 1", "goto done", "local b = a", "::done::", "print(a)"},
+		scopeTallProgram(),
 	)
 	return out
+}
+
+// scopeTallProgram: 23 lines with occurrences of one local at (line, column) pairs whose decimal digits concatenate to
+// the same string: (1,12)/(11,2), (2,13)/(21,3), (1,12)/(1,12)... - a key built as line followed by column without a
+// separator confuses them.
+func scopeTallProgram() []string {
+	lines := []string{"local a = 0"}
+	indent := map[int]int{1: 12, 11: 2, 2: 13, 21: 3, 3: 1, 13: 0, 12: 10, 22: 0}
+	for l := 1; l <= 22; l++ {
+		lines = append(lines, strings.Repeat(" ", indent[l])+"a = a + 1")
+	}
+	return lines
 }
